@@ -50,8 +50,8 @@ class FileFormatError(Exception):
 
 def cdb_hash(key):
     h = 5381
-    for c in key:
-        h = (h + (h << 5)) & 0xffffffff ^ ord(c)
+    for c in bytearray(key):
+        h = (h + (h << 5)) & 0xffffffff ^ c
     return h
 
 
@@ -447,11 +447,12 @@ class OrderedHashWriter(HashWriter):
         HashWriter.__init__(self, dbfile)
         # Keep an array of the positions of all keys
         self.index = GrowableArray("H")
-        # Keep track of the last key added
-        self.lastkey = emptybytes
+        # Keep track of the last key added (None: no key yet, so that an
+        # empty key is a valid first key)
+        self.lastkey = None
 
     def add(self, key, value):
-        if key <= self.lastkey:
+        if self.lastkey is not None and key <= self.lastkey:
             raise ValueError("Keys must increase: %r..%r"
                              % (self.lastkey, key))
         self.index.append(self.dbfile.tell())
